@@ -28,7 +28,8 @@ LEVEL = "fault_enumeration"
 BUDGET = {"quick": 45, "thorough": 900}
 RULE = (
     "One run = one generated graph (reductions of every strategy and engine incl. blockwise/order statistics with "
-    "auto-rechunk, and scans). EVERY task of the graph is (1) cloudpickled before execution, (2) executed twice on "
+    "auto-rechunk, two groupers, user Aggregation objects, and scans); half of the runs are light (one execution with every task and result cloudpickled, compared with the sync baseline), the other half full: "
+    "in a full run EVERY task of the graph is (1) cloudpickled before execution, (2) executed twice on "
     "the same inputs with the results compared, (3) its inputs digested before/after, (4) its result cloudpickled "
     "and compared; the run additionally draws worker crashes (recompute from released inputs), read-only input and "
     "transfer buffers and shared-reference hand-over from the tape; half of the tasks additionally run under sys.settrace with their input digests re-checked at every line executed inside flox (a write that is undone before the task returns is invisible at task boundaries but visible to a concurrent task sharing the input); the final result must equal the sync "
@@ -42,7 +43,7 @@ ASSUMPTIONS = [
     "real concurrent interleaving of two task bodies is not executed; a net or transient modification of a shared input is a violation under any interleaving, which is what is checked",
     "sampled graphs; per graph the crash point enumeration is complete only in the thorough tier for graphs of <=64 tasks",
 ]
-PROBES = ["tasks_line_traced_for_transient_writes", "user_aggregation_reused_between_build_and_run", "crash_recomputed_released_key", "readonly_write_attempt_spurious", "crash_point_enumerated_fully",
+PROBES = ["light_pickle_run", "tasks_line_traced_for_transient_writes", "user_aggregation_reused_between_build_and_run", "crash_recomputed_released_key", "readonly_write_attempt_spurious", "crash_point_enumerated_fully",
           "engine_numbagg", "engine_flox", "blockwise_rechunk", "scan", "by_dask"]
 
 
@@ -81,6 +82,9 @@ def gen(tape: Tape, tier: str) -> dict:
         case["kwargs"] = enc_value(kw)
         case["meta"]["custom"] = True
     case["crash_points"] = "all" if tier == "thorough" else 3
+    # half of the runs are 'light': one execution with every task and every result cloudpickled (plus the
+    # run's faults) against the sync baseline - cheap, so many more distinct graphs meet the pickle monitor
+    case["mode"] = "light" if tape.chance("gen.light", 0.5) else "full"
     return case
 
 
@@ -141,6 +145,21 @@ def run(case, tape: Tape, ctx):
                             crash_after=sorted(crash_after) if crash_after else None)
         return info
 
+    if case.get("mode") == "light":
+        colls, assemble, _ = call_chunked(case, func_override=user_agg)
+        info = RunInfo()
+        try:
+            res = assemble(exec_sim(colls, tape, knobs, ctx, info=info, always_pickle=True))
+        except TaskError as te:
+            cls, msg, det = classify_exception(te)
+            det.update(phase="pickled")
+            raise Violation("schedule-dependent-error", f"baseline succeeded but the execution with every task and result "
+                            f"cloudpickled failed: {msg}", **det)
+        d = deep_diff(res, base)
+        if d:
+            raise Violation("pickle", f"execution with every task and result cloudpickled differs from the sync baseline: {d}")
+        ctx.probe("light_pickle_run")
+        return
     info = one()
     ctx.probe("tasks_line_traced_for_transient_writes", info.stats.get("traced_tasks", 0))
     ctx.count("traced_lines", info.stats.get("traced_lines", 0))
@@ -162,6 +181,10 @@ def run(case, tape: Tape, ctx):
 
 
 def shrink(case):
+    if case.get("mode") == "full":
+        c = copy.deepcopy(case)
+        c["mode"] = "light"
+        yield c
     if case.get("crash_points") != 0:
         c = copy.deepcopy(case)
         c["crash_points"] = 0
